@@ -98,8 +98,11 @@ type Harness struct {
 
 	runWG      sync.WaitGroup
 	stopped    bool
-	stoppedOne bool            // a case stopped a service itself (Stop)
-	basePush   map[string]bool // doPush goroutines left over by earlier cases (see PushGoroutines)
+	stoppedOne bool // a case stopped a service itself (Stop)
+	// NotQuiet is set by Close when the writer did not become quiescent within its bound: the
+	// services were then not stopped and the case is to be discarded ("not-quiet-before-stop").
+	NotQuiet bool
+	basePush map[string]bool // doPush goroutines left over by earlier cases (see PushGoroutines)
 }
 
 var poolsOnce sync.Once
@@ -320,8 +323,10 @@ func (h *Harness) Close() {
 	if h.stoppedOne {
 		wait = 50 * time.Millisecond
 	}
+	quiet := false
 	for dl := time.Now().Add(wait); time.Now().Before(dl); {
 		if h.Quiet() {
+			quiet = true
 			break
 		}
 		h.DB.ReleaseAll(nil)
@@ -329,6 +334,13 @@ func (h *Harness) Close() {
 			h.Svc[k].Real.PlanFlush()
 		}
 		time.Sleep(300 * time.Microsecond)
+	}
+	if !quiet && !h.stoppedOne {
+		// not quiescent within the bound (overloaded machine): Stop is NOT issued - a goroutine
+		// that may still call Request would race with the shutdown. The services of this one
+		// harness are left running (they accept everything); the case must not be judged.
+		h.NotQuiet = true
+		return
 	}
 	for _, k := range Kinds {
 		h.Svc[k].Real.Stop()
